@@ -7,8 +7,8 @@
    StoreChunk / GetChunk call fail.  All theorems quantify over every schedule (list btid), every
    worker count, every fault oracle, every job list (duplicates included). *)
 From Coq Require Import List NArith Arith Bool.
-From DS Require Import Base.Bytes Base.Hash Base.Sched Model.Pool Model.BulkWrite Model.MakeCancel Model.CtxBound
-     Proofs.BulkWriteProofs Proofs.MakeCancelProofs Proofs.CtxBoundProofs.
+From DS Require Import Base.Bytes Base.Hash Base.Sched Model.Pool Model.BulkWrite Model.MakeCancel Model.CtxBound Model.StreamIO
+     Proofs.BulkWriteProofs Proofs.MakeCancelProofs Proofs.CtxBoundProofs Proofs.StreamIOProofs.
 Import ListNotations.
 
 (* At every point of every schedule: an id in ChunkStorage.processed is present in the target
@@ -169,6 +169,51 @@ Theorem C06_retry_after_has_error_refuted :
     r1 = false /\ r2 = true /\ has st2 i = false.
 Proof. exact cs_retry_after_has_error_prefix_refuted. Qed.
 Print Assumptions C06_retry_after_has_error_refuted.
+
+(* Faults outside the chunk store (Model/StreamIO.v).
+   SOURCE: a read error that the chunker reports before the end of the stream makes ChunkStream fail (no index),
+   also when it comes together with an empty chunk; nil means the jobs are exactly the chunks before the first
+   empty, error-free result. *)
+Theorem C06_source_error_reported : forall pre r post acc,
+  Forall (fun x => nr_err x = false /\ 0 < nr_len x) pre -> nr_err r = true ->
+  cs_feed true (pre ++ r :: post) acc = FErr.
+Proof. exact cs_source_error_reported. Qed.
+Print Assumptions C06_source_error_reported.
+
+Theorem C06_source_nil_complete : forall rs acc jobs,
+  cs_feed true rs acc = FNil jobs ->
+  exists pre post, rs = pre ++ post /\ jobs = rev acc ++ map nr_len pre /\
+                   Forall (fun x => nr_err x = false /\ 0 < nr_len x) pre /\
+                   (post = [] \/ exists r q, post = r :: q /\ nr_err r = false /\ nr_len r = 0).
+Proof. exact cs_nil_complete. Qed.
+Print Assumptions C06_source_nil_complete.
+
+Theorem C06_source_mutant_refuted :
+  exists rs, cs_feed false rs [] = FNil [] /\ cs_feed true rs [] = FErr.
+Proof. exact cs_feed_mutant_refuted. Qed.
+Print Assumptions C06_source_mutant_refuted.
+
+(* SINK: Index.WriteTo returns no error iff every write to the sink succeeded (n_mid writes while encoding plus
+   the final Flush); with the Flush result dropped an index of up to 99 chunks is "written" to a failing sink. *)
+Theorem C06_sink_error_reported : forall n_mid ok,
+  write_to true n_mid ok = false <-> forall k, k <= n_mid -> ok k = true.
+Proof. exact write_to_sound. Qed.
+Print Assumptions C06_sink_error_reported.
+
+Theorem C06_sink_mutant_refuted :
+  exists ok, write_to false 0 ok = false /\ ok 0 = false /\ write_to true 0 ok = true.
+Proof. exact write_to_mutant_refuted. Qed.
+Print Assumptions C06_sink_mutant_refuted.
+
+Theorem C06_index_fits_buffer : index_bytes 99 <= 4096 /\ 4096 < index_bytes 100.
+Proof. exact index_fits_buffer. Qed.
+Print Assumptions C06_index_fits_buffer.
+
+(* tar -i: exit 0 => ChunkStream, the Tar goroutine and the index store all succeeded. *)
+Theorem C06_run_tar_sound : forall cs_err tar_err sink_err,
+  run_tar true cs_err tar_err sink_err = false -> cs_err = false /\ tar_err = false /\ sink_err = false.
+Proof. exact run_tar_sound. Qed.
+Print Assumptions C06_run_tar_sound.
 
 (* ---- Non-vacuity ---- *)
 Definition ex_H (b : bytes) : id := fold_right N.add 0%N b.
